@@ -24,6 +24,10 @@ func init() {
 
 type emitSpec struct{ stream, k int }
 
+// schedEmitClosed: the streams report GetIsClosed() = true (FIN / timeout arrived while the halves
+// still drain buffered messages): identities and counts must be exactly what they are on an open stream
+var schedEmitClosed bool
+
 func execSchedEmit(specs []emitSpec, choose sched.Chooser) (sx.Sx, sched.Result) {
 	stats := &api.AppStats{}
 	total := 0
@@ -38,7 +42,7 @@ func execSchedEmit(specs []emitSpec, choose sched.Chooser) (sx.Sx, sched.Result)
 	streams := make([]*mock.Stream, nstreams)
 	emitters := make([]*api.Emitting, nstreams)
 	for i := range streams {
-		streams[i] = &mock.Stream{PcapId: string(rune('a' + i))}
+		streams[i] = &mock.Stream{PcapId: string(rune('a' + i)), Closed: schedEmitClosed}
 		emitters[i] = &api.Emitting{AppStats: stats, Stream: streams[i], OutputChannel: out}
 	}
 	fns := make([]func(), len(specs))
@@ -100,6 +104,11 @@ func genSchedEmit(r *Rand, tier string, emit func(sx.Sx)) {
 				order[i] = s.Task
 			}
 			emit(emitPayload(cfg, order))
+			if len(order)%3 == 0 {
+				p := emitPayload(cfg, order)
+				p.List = append(p.List, sx.A("closed"))
+				emit(p)
+			}
 			return true
 		})
 	}
@@ -132,6 +141,8 @@ func runSchedEmit(p sx.Sx) sx.Sx {
 	for _, t := range p.List[1].List {
 		order = append(order, int(t.Int()))
 	}
+	schedEmitClosed = len(p.List) > 2 && p.List[2].Atom == "closed"
+	defer func() { schedEmitClosed = false }()
 	obs, _ := execSchedEmit(specs, sched.Replay(order))
 	return obs
 }
